@@ -716,8 +716,9 @@ TECHNIQUE = ('Coq proof about a faithful model of merge/_ordered_merge/_unordere
              'streamed join generators (C03) and map streams (C04) + exhaustive small-scope correspondence on real HDF5 frames')
 LEVEL_TEXT = ('Theorems in coq/Props/C02.v: the streamed path of the repaired merge equals the relational join (rows, key order, '
               'column lengths, names) for all sizes and chunk sizes, for every how in {left,right,inner} x every truthful '
-              'unique-hint pair with no hypothesis left about C03 or C04 (ordered_merge_total_all / ordered_merge_correct_all / '
-              'ordered_merge_is_relational_join instantiate C03 streamed_total for all eight generators; the copied side of the '
+              'unique-hint pair, keys repeated on both sides (many-to-many) included since fix-F-C02f, with no hypothesis left '
+              'about C03 or C04 (ordered_merge_total_all / ordered_merge_correct_all / ordered_merge_is_relational_join '
+              'instantiate C03 streamed_total for all eight generators and C04 for in-range maps in any order; the copied side of the '
               'right/left-unique variants is proved equal to the gather through all rows; equal column lengths and '
               'non-decreasing key order are separate corollaries); the pandas path is correspondence against the '
               'specification (pandas trusted).')
